@@ -229,16 +229,38 @@ class C15(Check):
     extracted = ['coq/Json/model.mli', 'coq/Json/model.ml', 'ocaml/zconv.ml', 'ocaml/json_driver.ml']
     harness_sources = ['harness/json.cpp']
     per_case_timeout = 10
-    level_text = ''
-    level_note = ''
-    technique = ''
-    rule = ''
-    assumptions = []
+    level_text = ('Theorems in Coq about an executable model that mirrors src/Document/Json.cpp decision by decision (cursor = remaining '
+                  'bytes + line over a NUL-terminated text, every `++pos.pos` a checked advance, loops with explicit fuel): parse never runs '
+                  'out of fuel 2*length+3 and never steps past the terminator for every byte string; a reported (line, column) is the '
+                  'coordinate pair of an offset of the text; parse(toString v) = canon v (equal tree) for every tree of null, booleans, '
+                  '32/64-bit integers, NUL-free strings, lists and maps with distinct NUL-free keys; stripComments = a five-state reference '
+                  'machine for every input, keeps every line break, is the identity on texts without a slash. The model is tied to the code '
+                  'by running the extracted model, the extracted spec and the ASan/UBSan build on the same inputs (parse results, error '
+                  'positions, toString text, re-parsed trees, stripped texts compared line by line; exact-size heap copies; watchdog).')
+    level_note = ('Partial: libc is modelled by reference functions (printf %d/%lld = print_dec, atoll = ref_atoll incl. saturation, '
+                  'sscanf %x on four checked hex digits = positional value, strpbrk = find_one_of) - atoll(printf z) = z is proved for the '
+                  'model functions over the whole 64-bit range and validated against libc on boundary and random integers only. '
+                  'Doubles are outside the property (kept as opaque text). The nesting depth bound (1000) concerns the C++ stack: the model '
+                  'needs no depth hypothesis, depth up to 1000 is validated by correspondence only (stream nesting). HashMap is modelled as '
+                  'an insertion-ordered association list with replace-in-place on a repeated key. What a valid string literal denotes '
+                  '(RFC 8259 escapes, surrogate pairs to UTF-8) is checked against the reference decoder JsonSpec.ref_string by correspondence only '
+                  '(no theorem). Trusted: Coq kernel, JsonSpec.v (position_inside, reference_strip_from, in_class/value_eq/canon), extraction + OCaml '
+                  'driver, harness, generators. The theorems are about the model; the tie to the code is differential.')
+    technique = 'coq-proof + model/implementation correspondence (extracted model vs ASan/UBSan build), spec oracles on implementation answers'
+    rule = ('cases = one call each: parse <text>, pstr <string literal content>, strip <text>, rt <tree> (toString then parse); streams: '
+            'exhaustive short texts over the delimiter alphabet, over a string-token alphabet and over a comment alphabet; valid documents in many '
+            'styles; mutations aimed at escapes, quotes and the terminator; every truncation of sample documents; every byte after a backslash; '
+            'truncated and mispaired \\u escapes; line/column documents with CR, LF, CR LF inside and outside strings; comments next to strings '
+            'and escapes; value trees with every byte 1..255 and the integer boundaries; nesting to depth 1000. A case is non-trivial when the '
+            'text has at least 3 bytes and one of " \\ / [ { (parse/strip/pstr) or the tree has a container or a byte that must be escaped (rt); '
+            'distinct = distinct op text')
+    assumptions = ['libc printf("%d"/"%lld"), atoll, sscanf("%x"), strpbrk behave as the reference functions of JsonModel.v (print_dec, ref_atoll, hexn, find_one_of)',
+                   'Variant/HashMap/List/String behave as value trees with an insertion-ordered map (checked by the dump of every parsed tree)']
 
     def nontrivial(self, case, obs):
         for l in case:
             t = l.split(' ')
-            if t[0] in ('parse', 'strip') and t[1] != '-':
+            if t[0] in ('parse', 'strip', 'pstr') and t[1] != '-':
                 b = bytes.fromhex(t[1])
                 if len(b) >= 3 and any(c in b for c in b'"\\/[{'):
                     return True
@@ -268,6 +290,9 @@ class C15(Check):
                 k += 1
             return 'strip: output differs from the reference: implementation has <%s> where the reference has <%s>; expected `%s` got `%s`' % (
                 self._byte_name(got, k), self._byte_name(exp, k), exp[:200], got[:200])
+        if kind == 'pstr':
+            return ('pstr: the value of a valid JSON string literal differs from the RFC 8259 reference (escapes, surrogate pairs, UTF-8 bytes): '
+                    'spec expects `%s`, implementation gives `%s`' % (exp[:200], got[:200]))
         if kind == 'rt':
             return 'rt: toString then parse does not give an equal tree (observation: equal flag | text, parse result): `%s`' % got[:300]
         return '%s: spec expects `%s`, implementation gives `%s`' % (kind, exp[:200], got[:200])
@@ -305,6 +330,8 @@ class C15(Check):
                 if r != ['1'] and i not in failed:
                     failed.add(i)
                     fails.append((i, k, 'parse: error position (line, column) is not inside the text: line %s column %s' % (l, col)))
+        # shortest failing text first: the report of a group of equal failures shows the smallest witness of the stream
+        fails.sort(key=lambda f: sum(len(l) for l in cases[f[0]]))
         return fails
 
     def streams(self, tier, rng):
@@ -367,6 +394,81 @@ class C15(Check):
                 cases.append(['rt ' + 'L1,' * d + 'n'])
                 cases.append(['rt ' + 'M1,k61,' * d + 'i1'])
         out.append(Stream('nesting', cases, note='arrays/objects nested up to depth 1000, closed and truncated'))
+        out += self.streams_case_splits(thorough, rng, docs)
+        return out
+
+    def streams_case_splits(self, thorough, rng, docs):
+        """generators aimed at the case splits of the proofs (str_loop_good, hexn_good, read_token_good, strip_*_ref)"""
+        out = []
+        # 7. the escape switch: every byte after a backslash - closed, truncated right after it, and followed by a later
+        #    syntax error (so that line and column after the escape are observed)
+        cases = []
+        for e in range(1, 256):
+            eb = bytes([e])
+            cases.append(['pstr ' + hexs(b'\\' + eb)])
+            cases.append(['parse ' + hexs(b'"a\\' + eb)])
+            cases.append(['parse ' + hexs(b'["\\' + eb + b'x", 1 2]')])
+            cases.append(['parse ' + hexs(b'"' + eb + b'\\')])                 # any byte, then a backslash before the terminator
+        for d in [b'"\\u12aB"', b'"\\ud83d\\ude00"', b'"\\uD800\\uDC00x"', b'["\\udbff\\udfff"]', b'{"\\u0041":"\\u00e9\\u20ac"}']:
+            for k in range(len(d) + 1):
+                cases.append(['parse ' + hexs(d[:k])])                          # every truncation
+                if k < len(d):
+                    for r in (b'g', b'"', b'\\', b'\n', b'\r', b'G', b'/', b' '):
+                        cases.append(['parse ' + hexs(d[:k] + r + d[k + 1:])])  # every byte replaced
+                        cases.append(['parse ' + hexs(d[:k] + r)])
+        W1 = ['d7ff', 'd800', 'd801', 'dbff', 'dc00', 'dfff', 'e000', 'D800', 'DBFF', 'DbFf', '0000', '0001', '007f', '0080', '07ff', '0800', 'ffff', 'fffe', '0022', '005c', '000a']
+        W2 = ['dbff', 'dc00', 'dc01', 'dfff', 'e000', '0041', 'DC00', 'DFFF', 'd800', 'DeAd']
+        for a in W1:
+            cases.append(['pstr ' + hexs(b'\\u' + a.encode())])
+            cases.append(['pstr ' + hexs(b'x\\u' + a.encode() + b'y')])
+            for b in W2:
+                cases.append(['pstr ' + hexs(b'\\u' + a.encode() + b'\\u' + b.encode())])
+            for tail in (b'\\', b'\\u', b'\\x0041', b'x', b'\\n', b'\\ud', b'\\u00', b'\\U0041'):
+                cases.append(['parse ' + hexs(b'"\\u' + a.encode() + tail + b'"')])
+                cases.append(['parse ' + hexs(b'"\\u' + a.encode() + tail)])
+        for _ in range(6000 if thorough else 800):                              # all supplementary planes: surrogate arithmetic
+            cp = rng.choice([0x10000, 0x10001, 0x103ff, 0x10400, 0x1f600, 0xfffff, 0x100000, 0x10fc00, 0x10ffff, rng.randrange(0x10000, 0x110000)])
+            o = cp - 0x10000
+            hi, lo = 0xd800 | (o >> 10), 0xdc00 | (o & 0x3ff)
+            fmt = rng.choice([b'\\u%04x\\u%04x', b'\\u%04X\\u%04X', b'\\u%04x\\u%04X'])
+            cases.append(['pstr ' + hexs(rng.choice([b'', b'a', b'\\n']) + fmt % (hi, lo) + rng.choice([b'', b'z', b'\\u0041']))])
+        for _ in range(3000 if thorough else 500):                              # valid literals in mixed styles
+            body = text_string(rng, gen_bytes(rng, 10))[1:-1]
+            if b'\n' not in body and b'\r' not in body:
+                cases.append(['pstr ' + hexs(body)])
+        out.append(Stream('escapes', cases, note='every byte after a backslash; truncated / damaged \\u escapes; surrogate halves and pairs; literals judged by the RFC 8259 reference'))
+        # 8. exhaustive short texts over a string-token alphabet
+        A2 = [0x22, 0x5c, 0x75, 0x64, 0x38, 0x63, 0x30, 0x0a, 0x0d]               # " \ u d 8 c 0 LF CR
+        cases = []
+        for n in range(0, (5 if thorough else 4) + 1):
+            for tup in itertools.product(A2, repeat=n):
+                cases.append(['parse ' + hexs(b'"' + bytes(tup))])
+        out.append(Stream('exhaustive-string', cases, exhaustive=True,
+                          note='an opening quote followed by every byte string of length <= %d over { " \\ u d 8 c 0 LF CR }' % (5 if thorough else 4)))
+        # 9. line and column: line breaks of all three kinds inside and outside strings, escaped or not, then a syntax error
+        pieces_ws = [b' ', b'\t', b'\n', b'\r', b'\r\n', b'\n\r', b'\r\r\n', b'']
+        pieces_v = [b'"a"', b'"l1\nl2"', b'"l1\r\nl2"', b'"l1\rl2"', b'"x\\\ny"', b'"x\\\r\ny"', b'"x\\\ry"', b'1', b'true', b'null', b'"\\n"', b'"\xc3\xa9"', b'[]', b'{"k":\n1}']
+        errs = [b'!', b'"abc', b'"\\', b'"\\u12', b'tru', b'1 2', b'"\\ud800x', b'"\\ud800\\u0041"', b'}', b'', b':', b'-x', b'"a":1', b'"\n\r', b'nul\n', b'"\\\n', b'"\\\r']
+        cases = []
+        for _ in range(8000 if thorough else 1200):
+            d = bytearray(b'[')
+            for _ in range(rng.randrange(0, 6)):
+                d += rng.choice(pieces_ws) + rng.choice(pieces_v) + rng.choice(pieces_ws) + b','
+            d += rng.choice(pieces_ws) + rng.choice(errs) + rng.choice([b'', b']', b'\n', b'\r\n]'])
+            cases.append(['parse ' + hexs(bytes(d))])
+        out.append(Stream('positions', cases, note='CR / LF / CR LF inside and outside strings (raw and after a backslash), then a syntax error: line and column'))
+        # 10. comments adjacent to strings and escapes: exhaustive short texts over a comment alphabet
+        A3 = [0x22, 0x5c, 0x2f, 0x2a, 0x0a, 0x61]                                # " \ / * LF a
+        cases = []
+        for n in range(0, (7 if thorough else 6) + 1):
+            for tup in itertools.product(A3, repeat=n):
+                cases.append(['strip ' + hexs(bytes(tup))])
+        if thorough:
+            for tup in itertools.product(A3 + [0x0d], repeat=6):
+                if 0x0d in tup:
+                    cases.append(['strip ' + hexs(bytes(tup))])
+        out.append(Stream('exhaustive-strip', cases, exhaustive=True,
+                          note='every byte string of length <= %d over { " \\ / * LF a }' % (7 if thorough else 6)))
         return out
 
 
